@@ -13,7 +13,7 @@ package satisfaction
 //@ pred saAccepts(l model.BiasListener, x model.MethodParameters, id string) = typeis(x, satisfactionAddedCriterion)
 
 //@ func (*SatisfactionParameters).with
-//@   property C07 C01 C09 C13
+//@   property C07 C01 C09 C13 C15 C18
 //@   nopanic
 //@   ensures [replaced] result.Params == params && result.Function == s.Function && result.RandomSeed == s.RandomSeed
 //@             && result.CurrentChoice == s.CurrentChoice && result.RandomAlternativesOrdering == s.RandomAlternativesOrdering
@@ -138,7 +138,7 @@ package satisfaction
 
 // ---- the method as a whole (C13, C01, C14): what is decoded is what is used, every examined alternative appears once
 //@ func (*Satisfaction).ParseParams
-//@   property C13 C14 C20 C01
+//@   property C13 C14 C20 C01 C09
 //@   ensures [decoded_parameters] typeis(result, SatisfactionParameters)
 //@             && result.(SatisfactionParameters).Function == (decoded_has(dm.MethodParameters, "Function") ? decoded_str(dm.MethodParameters, "Function") : "")
 //@             && result.(SatisfactionParameters).CurrentChoice == (decoded_has(dm.MethodParameters, "CurrentChoice") ? decoded_str(dm.MethodParameters, "CurrentChoice") : "")
@@ -148,22 +148,22 @@ package satisfaction
 //@ spec saCurrent(p limited_rationality.HeuristicParams) string = p.(*SatisfactionParameters).CurrentChoice
 //@ spec saRandom(p limited_rationality.HeuristicParams) bool = p.(*SatisfactionParameters).RandomAlternativesOrdering
 //@ func (*SatisfactionParameters).GetCurrentChoice
-//@   property C13 C01
+//@   property C13 C01 C09
 //@   nopanic
 //@   refines limited_rationality.HeuristicParams.GetCurrentChoice with currentChoiceOf=saCurrent
 //@   ensures result == s.CurrentChoice
 //@ func (*SatisfactionParameters).IsRandomAlternativesOrdering
-//@   property C13 C01
+//@   property C13 C01 C09
 //@   nopanic
 //@   refines limited_rationality.HeuristicParams.IsRandomAlternativesOrdering with randomOrderOf=saRandom
 //@   ensures result == s.RandomAlternativesOrdering
 //@ func (*SatisfactionParameters).GetRandomSeed
-//@   property C13 C01
+//@   property C13 C01 C14 C09
 //@   nopanic
 //@   ensures result == s.RandomSeed
 
 //@ func (*Satisfaction).Evaluate
-//@   property C13 C14 C01
+//@   property C13 C14 C01 C09
 //@   requires [parameters] typeis(dmp.MethodParameters, SatisfactionParameters)
 //@   requires [distinct_alternatives] model.distinctAltIds(dmp.ConsideredAlternatives)
 //@   returnhint [level_source_named_in_the_request] len(params.Function) > 0 && exists k int :: 0 <= k && k < len(s.functions) && satisfaction_levels.sourceName(s.functions[k]) == params.Function
@@ -177,3 +177,27 @@ package satisfaction
 //@   ensures [one_entry_per_examined_alternative] result != nil && (len(dmp.MethodParameters.(SatisfactionParameters).CurrentChoice) == 0 ==> len(*result) == len(dmp.ConsideredAlternatives))
 //@   ensures [each_links_to_the_next] forall i int :: 0 <= i && i < len(*result) ==>
 //@             (i + 1 < len(*result) ? (len((*result)[i].BetterThanOrSameAs) == 1 && (*result)[i].BetterThanOrSameAs[0] == (*result)[i + 1].Alternative.Id) : len((*result)[i].BetterThanOrSameAs) == 0)
+
+// the registered object holds exactly the collaborators it was built with, each in its own role
+//@ func NewSatisfactionBiasListener
+//@   property C13 C07 C09
+//@   nopanic
+//@   ensures [wired_as_given] result != nil && fresh(result) && result.satisfactionLevelsUpdateListeners == satisfactionLevelsUpdateListeners
+
+// the registered object holds exactly the collaborators it was built with, each in its own role
+//@ func NewSatisfaction
+//@   property C13 C09 C01
+//@   nopanic
+//@   ensures [wired_as_given] result != nil && fresh(result) && result.functions == functions && result.generator == generator
+
+// ---- wire format: the JSON names under which requests are read and responses are written (struct tags; encoding/json
+// itself is outside the verified code).  A renamed or omitempty field changes what a client sees without changing any Go value.
+//@ wire satisfactionAddedCriterion
+//@   property C01 C07 C20
+//@   json Params=params,omitempty
+//@ wire SatisfactionParameters
+//@   property C01 C09 C13 C20
+//@   json Function=function Params=params RandomSeed=randomSeed CurrentChoice=currentChoice RandomAlternativesOrdering=randomAlternativesOrdering
+//@ wire SatisfactionEvaluation
+//@   property C01 C09 C13 C20
+//@   json SatisfiedThresholds=satisfiedThresholds ThresholdsIndex=thresholdsIndex
